@@ -108,7 +108,8 @@ class Handler(object):
             g['inst'] = str(f.file_meta.MediaStorageSOPInstanceUID)
             g['ts'] = str(f.file_meta.TransferSyntaxUID)
             _ = f.PatientName, f.SOPInstanceUID
-            g['readable'] = str(f.SOPInstanceUID) == g['inst'] and str(context.sop_class) == g['cls']
+            # the context handed over is the one negotiated on THIS association: its class and its transfer syntax
+            g['readable'] = str(f.SOPInstanceUID) == g['inst'] and str(context.sop_class) == g['cls'] and str(context.supported_ts) == g['ts']
         except Exception as exc:       # noqa
             g['error'] = '%s: %s' % (type(exc).__name__, exc)
         if self.outcome == 'EHE':
@@ -409,7 +410,8 @@ def main(tier='quick'):
                 srv2.on_receive_store = handler2
                 srv2.timeout = 60
                 cl_a = ae_mod.ClientAE('CLA', supported_ts=[ts], max_pdu_length=16384).add_scu(sc.storage_scu, [CT])
-                cl_b = ae_mod.ClientAE('CLB', supported_ts=[ts2], max_pdu_length=16384).add_scu(sc.storage_scu, [CT])
+                # ... and, on the same context id, another class
+                cl_b = ae_mod.ClientAE('CLB', supported_ts=[ts2], max_pdu_length=16384).add_scu(sc.storage_scu, [MR])
                 cl_a.timeout = cl_b.timeout = 60
                 with R.Net() as net:
                     nets.append(net)
